@@ -1,9 +1,9 @@
 package main
 
 import (
-	"go/ast"
 	"context"
 	"fmt"
+	"go/ast"
 	"go/token"
 	"go/types"
 	"os"
@@ -120,7 +120,6 @@ func (x *X) addrLoc(v ssa.Value) (l loc, cell *ssa.Alloc, ok bool) {
 	}
 	return objLoc(pt.Elem(), "r"), nil, true
 }
-
 
 func (x *X) fnWrites(fn *ssa.Function) *writeSet {
 	if x.wsMemo == nil {
@@ -350,8 +349,18 @@ func (x *X) havocAlloc() {
 }
 
 func (x *X) havocWrites(w *writeSet, why string) {
-	if w.all || len(w.keys) > 0 {
+	if w.all {
 		x.bumpHeapVersion("*")
+	} else {
+		for k := range w.keys {
+			if strings.HasPrefix(k, "@") {
+				x.bumpHeapVersion("*") // forgotten by pattern
+				break
+			}
+			if !strings.HasPrefix(k, "B:") {
+				x.bumpHeapVersion(k)
+			}
+		}
 	}
 	if w.all {
 		x.havocHeap(why)
@@ -1020,6 +1029,9 @@ func (x *X) callContract(f *ssa.Function, fs *FuncSpec, args []Val, in ssa.Instr
 	for _, r := range fs.Requires {
 		x.oblige("pre", site+" requires "+r, pos, x.evalBool(env, r))
 	}
+	if fs.Trusted {
+		x.externs["trusted contract of "+FuncName(f)+" (assumed, not verified): "+strings.Join(fs.Ensures, "; ")] = true
+	}
 	old := x.st.clone()
 	// postconditions of the shape [imp(G,] touches(..) [)] refine how the heap is forgotten
 	var fcs []*frameClause
@@ -1167,7 +1179,7 @@ func verifyFuncVariant(prog *Prog, specs *Specs, fn *ssa.Function, variant strin
 	}
 	x.peel = len(fs.Ensures) > 0 || len(fs.Asserts) > 0
 	x.prune = fs.Prune
-	if len(fs.Ensures) > 0 {
+	if len(fs.Ensures) > 0 && !fs.Trusted {
 		x.retHook = func(v Val) {
 			renv := env.child()
 			bindResult(renv, v, resultType(fn.Signature))
@@ -1291,6 +1303,40 @@ func verifyFuncVariant(prog *Prog, specs *Specs, fn *ssa.Function, variant strin
 				bad = append(bad[:12], "...")
 			}
 			r.Detail = "the body may write " + strings.Join(bad, ", ")
+		}
+		res = append(res, r)
+	}
+	// a `reads` clause covers everything the body may read
+	if len(fs.Reads) > 0 && !fs.Trusted {
+		rs := x.fnReads(fn)
+		var pats []*regexp.Regexp
+		for _, m := range fs.Reads {
+			pats = append(pats, regexp.MustCompile(globToRegexp(m)))
+		}
+		var bad []string
+		if rs.all {
+			bad = append(bad, "(unknown code: everything)")
+		}
+		for k := range rs.keys {
+			k = strings.TrimPrefix(k, "@")
+			ok := false
+			for _, re := range pats {
+				if re.MatchString(k) {
+					ok = true
+				}
+			}
+			if !ok {
+				bad = append(bad, k)
+			}
+		}
+		sort.Strings(bad)
+		r := OblResult{Name: name + "#frame:reads " + strings.Join(fs.Reads, " "), Status: "proved", Kind: "frame", Func: name, Site: "reads " + strings.Join(fs.Reads, " "), Solver: "static may-read analysis over go/ssa", Order: len(x.obls)}
+		if len(bad) > 0 {
+			r.Status = "failed"
+			if len(bad) > 12 {
+				bad = append(bad[:12], "...")
+			}
+			r.Detail = "the body may read " + strings.Join(bad, ", ")
 		}
 		res = append(res, r)
 	}
